@@ -167,7 +167,7 @@ VERIF_HARNESS(c11_s1_notify) {
 
 /* ---- S3: deregistration --------------------------------------------------------------------------------------- */
 #ifndef PATHWAY
-#define PATHWAY 0        /* 0 coap_delete_observer, 1 failed CON notification, 2 handler error response, 3 Reset in reply to a notification */
+#define PATHWAY 0        /* 4 session loss (coap_delete_observers), 0 coap_delete_observer, 1 failed CON notification, 2 handler error response, 3 Reset in reply to a notification */
 #endif
 VERIF_HARNESS(c11_s3_deregister) {
   ne_init();
@@ -209,8 +209,14 @@ VERIF_HARNESS(c11_s3_deregister) {
     coap_pdu_t *rst = ne_make_pdu(COAP_MESSAGE_RST, 0, nmid, tok, 0);
     coap_dispatch(&ne_ctx, &ne_sess, rst);
   }
+#elif PATHWAY == 4
+  /* session loss: coap_session_disconnected_lkd() / session teardown call this; the session holds TWO observations of the resource */
+  coap_delete_observers(&ne_ctx, &ne_sess);
 #endif
-#if PATHWAY == 2
+#if PATHWAY == 4
+  VERIF_ASSERT(res->subscribers == NULL, "S3 session loss removes every observation the session holds on the resource");
+  VERIF_ASSERT(ne_sess.ref == ref0 - 2, "S3 each removed observer releases its session reference exactly once");
+#elif PATHWAY == 2
   /* both observers were due: both got the error and both are removed */
   VERIF_ASSERT(res->subscribers == NULL, "S3 an error response from the handler removes the observers it was sent to");
   VERIF_ASSERT(ne_sess.ref == ref0 - 2, "S3 each removed observer releases its session reference exactly once");
@@ -223,10 +229,55 @@ VERIF_HARNESS(c11_s3_deregister) {
   h_code = 0x45;
   res->dirty = 1;
   __CPROVER_file_local_coap_resource_c_coap_notify_observers(&ne_ctx, res, NOT_DELETING);
-#if PATHWAY == 2
+#if PATHWAY == 2 || PATHWAY == 4
   VERIF_ASSERT(ne_tx_count == 0, "S3 no notification after all observers are gone");
 #else
   VERIF_ASSERT(ne_tx_count == 1 && memcmp(&ne_tx_first[0][4], tok2, 4) == 0, "S3 later notifications go only to the remaining observer");
 #endif
   VERIF_REACH("S3 end");
+}
+
+/* ---- S4: the deferred-notification retry (coap_check_notify_lkd, called from every I/O step) ------------------------------ */
+VERIF_HARNESS(c11_s4_check_notify) {
+  ne_init();
+  ne_sess.type = COAP_SESSION_TYPE_SERVER;
+  VERIF_IN(uint8_t, pending);
+  VERIF_IN(uint8_t, notify_con);
+  VERIF_IN(uint8_t, non_cnt);
+  VERIF_IN(uint8_t, con_active);
+  VERIF_IN(uint8_t, nstart);
+  VERIF_IN_BUF(tok, 4);
+  VERIF_ASSUME(pending <= 1 && notify_con <= 1 && non_cnt <= 5 && nstart >= 1 && nstart <= 3 && con_active <= nstart);
+  res = coap_resource_init(&path_a, notify_con ? COAP_RESOURCE_FLAGS_NOTIFY_CON : COAP_RESOURCE_FLAGS_NOTIFY_NON);
+  res->context = &ne_ctx;
+  res->observable = 1;
+  res->observe = 7;
+  /* state left behind by a run in which this observer could not be served: see the "blocked" obligations of S1 */
+  res->dirty = 0;
+  res->partiallydirty = 1;
+  coap_register_request_handler(res, COAP_REQUEST_GET, h_get);
+  ne_sess.con_active = con_active;
+  ne_sess.nstart = nstart;
+  coap_subscription_t *o1 = make_observer(&ne_sess, tok, 0x10);
+  o1->non_cnt = non_cnt;
+  o1->dirty = 1;
+  res->subscribers = o1;
+  ne_ctx.resources = res;               /* uthash iteration contract: RESOURCES_ITER follows hh.next from the head */
+  ne_ctx.observe_pending = pending;
+  h_calls = 0;
+  coap_check_notify_lkd(&ne_ctx);
+  int con1 = notify_con || non_cnt >= 5;
+  int blocked = con_active >= nstart && con1;
+  if (!pending) {
+    VERIF_ASSERT(ne_tx_count == 0 && o1->dirty == 1, "S4 nothing happens while no notification is pending");
+  } else if (blocked) {
+    VERIF_ASSERT(ne_tx_count == 0 && o1->dirty == 1 && res->partiallydirty == 1, "S4 a still-blocked observer stays dirty");
+    VERIF_ASSERT(ne_ctx.observe_pending == 1, "S4 a notification that had to be deferred again stays pending for the next I/O step (eventually notified)");
+  } else {
+    VERIF_ASSERT(ne_tx_count == 1 && o1->dirty == 0 && memcmp(&ne_tx_first[0][4], tok, 4) == 0, "S4 the deferred notification is sent once the observer can be served");
+    VERIF_ASSERT(ne_ctx.observe_pending == 0, "S4 nothing stays pending after every observer was served");
+  }
+#ifdef WITNESS
+  if (pending && blocked) VERIF_REACH("S4 deferred again");
+#endif
 }
